@@ -90,7 +90,11 @@ def regen_tables():
     rc, out = run([PY, os.path.join(VERIF, "harness", "gen_tables.py")], env={"PYTHONPATH": REPO, "RTAMT_REPO": REPO})
     if rc != 0:
         return False, out
-    return True, out
+    # the operation classes translated from the source (Rtamt/Py/GeneratedOps.lean)
+    rc2, out2 = run([PY, os.path.join(VERIF, "harness", "py2lean.py")], env={"PYTHONPATH": REPO, "RTAMT_REPO": REPO})
+    if rc2 != 0:
+        return False, out2
+    return True, out + out2
 
 
 def lean_sources_hash():
